@@ -176,7 +176,110 @@ func genForm(r *rand.Rand, nv, depth int, positiveUniqOnly bool, pol int) *Form 
 	}
 }
 
+// pinned conjoins f with one literal per variable of f (all of them, or all but one): solving then amounts to evaluating
+// the translation of f AT ONE ASSIGNMENT, so a translation that is wrong on a few assignments only -- which a solver
+// hides by finding another model -- is met as often as those assignments are drawn.
+func pinned(r *rand.Rand, f *Form) *Form {
+	seen := map[int]bool{}
+	var vars []int
+	var walk func(g *Form)
+	walk = func(g *Form) {
+		if g.Op == "var" && !seen[g.V] {
+			seen[g.V] = true
+			vars = append(vars, g.V)
+		}
+		for _, v := range g.Vs {
+			if !seen[v] {
+				seen[v] = true
+				vars = append(vars, v)
+			}
+		}
+		for _, a := range g.Args {
+			walk(a)
+		}
+	}
+	walk(f)
+	args := []*Form{f}
+	skip := -1
+	if len(vars) > 0 && r.Intn(3) == 0 {
+		skip = r.Intn(len(vars))
+	}
+	// assignments with few true variables are the interesting ones for exactly-one groups
+	ptrue := []float64{0.5, 0.25, 0.15}[r.Intn(3)]
+	for i, v := range vars {
+		if i == skip {
+			continue
+		}
+		l := &Form{Op: "var", V: v}
+		if r.Float64() >= ptrue {
+			l = &Form{Op: "not", Args: []*Form{l}}
+		}
+		args = append(args, l)
+	}
+	if r.Intn(2) == 0 { // the pins first
+		args = append(args[1:], args[0])
+	}
+	return &Form{Op: "and", Args: args}
+}
+
+// groupPoints: every exactly-one group of 2..9 names, positive and negated, evaluated at every assignment of its names
+// with at most two of them true (all, each one, each pair), the names pinned by literals: 344 formulas that decide the
+// translation of a group (pairwise below the threshold, the grid of auxiliary variables above it, the negated forms)
+// point by point.  They are the first cases of every C11 run.
+var groupPointCases = func() []*Form {
+	var out []*Form
+	for k := 2; k <= 9; k++ {
+		vs := make([]int, k)
+		for i := range vs {
+			vs[i] = i + 1
+		}
+		var sets [][]int
+		sets = append(sets, nil)
+		for i := 0; i < k; i++ {
+			sets = append(sets, []int{i})
+		}
+		for i := 0; i < k; i++ {
+			for j := i + 1; j < k; j++ {
+				sets = append(sets, []int{i, j})
+			}
+		}
+		for _, neg := range []bool{false, true} {
+			for _, set := range sets {
+				g := &Form{Op: "uniq", Vs: append([]int{}, vs...)}
+				if neg {
+					g = &Form{Op: "not", Args: []*Form{g}}
+				}
+				args := []*Form{g}
+				on := map[int]bool{}
+				for _, i := range set {
+					on[i] = true
+				}
+				for i := 0; i < k; i++ {
+					l := &Form{Op: "var", V: i + 1}
+					if !on[i] {
+						l = &Form{Op: "not", Args: []*Form{l}}
+					}
+					args = append(args, l)
+				}
+				out = append(out, &Form{Op: "and", Args: args})
+			}
+		}
+	}
+	return out
+}()
+
 func genC11(r *rand.Rand, idx int, tier string, positiveUniqOnly bool) *FormCase {
+	if !positiveUniqOnly && idx < len(groupPointCases) {
+		return &FormCase{F: groupPointCases[idx]}
+	}
+	c := genC11base(r, idx, tier, positiveUniqOnly)
+	if r.Intn(4) == 0 {
+		c.F = pinned(r, c.F)
+	}
+	return c
+}
+
+func genC11base(r *rand.Rand, idx int, tier string, positiveUniqOnly bool) *FormCase {
 	nv := 1 + r.Intn(5)
 	depth := 1 + r.Intn(4)
 	switch r.Intn(14) {
